@@ -13,6 +13,7 @@ Decided statically:
  R6 body shape per request type: ordered primitive-writer sequence equals the v4 body grammar.
 Not decided: compressed bodies decompress to the original (library), value encoding (C01), session-level captured frames.
 """
+from ..inline import inline_view
 from ..mir import AnchorLost
 from ..util import df_of, operand_path, path_last, fn_short, in_set
 
@@ -592,7 +593,7 @@ def _derives_from_len(b, df, op, depth=0):
 
 
 def check(ctx):
-    facts = ctx.facts("default")
+    facts = inline_view(ctx.facts("default"))
     for fn in (r1_r2, r6, r4, r5):
         try:
             fn(ctx, facts)
